@@ -169,7 +169,7 @@ def run_case(case, acc):
                 plains = {g: plain(gi) for g, gi in groups.items()}
                 perr = [p[1] for p in plains.values() if p[1]]
                 merr = type(sink.error).__name__ if sink.error is not None else None
-                if any(e in SKIP_ERRORS for e in perr) or merr in SKIP_ERRORS:
+                if any(e in SKIP_ERRORS for e in perr):
                     acc.skipped += 1
                     continue
                 vs = []
@@ -277,7 +277,7 @@ def run_case(case, acc):
             plains = [plain(tuple(l[1])) for l in hl]
             perr = [p[1] for p in plains if p[1]]
             tail_err = [ev[2][1] for ev in ctx.log('t') if ev[0] == 'e']
-            if any(e in SKIP_ERRORS for e in perr) or merr in SKIP_ERRORS or any(e in SKIP_ERRORS for e in tail_err):
+            if any(e in SKIP_ERRORS for e in perr):
                 acc.skipped += 1
                 continue
             vs = []
